@@ -174,7 +174,7 @@ class VNCDoToolClient(rfb.RFBClient):
         self.factory.clientConnectionLost(self, reason)
 
     def _decodeKey(self, key: str) -> list[int]:
-        if self.factory.force_caps:
+        if self.factory.force_caps and len(key) == 1:
             if key.isupper() or key in self.SPECIAL_KEYS_US:
                 key = "shift-%c" % key
 
